@@ -156,7 +156,27 @@ def run(p: Program, rep: Report, tier: str) -> None:
                 rep.violation("R11.3", construct(inner, c), where(inner, c), "websocket_session hands the view something other than the WebSocket wrapper (raw channels leak)")
     if okv:
         rep.ok("R11.3", "websocket_session passes only the wrapper to the view")
-    rep.require_instances("R11.3", 3)
+    # once the channels are wrapped, nothing in the function that wrapped them talks to the server directly: a raw
+    # send()/receive() next to the wrapper bypasses the state machine (e.g. a second websocket.close after the view closed)
+    from .stream_common import _send_params
+    for f_ in [f for f in p.all_functions() if f.module.name.startswith("baize.asgi")]:
+        wraps = [c for c in calls_in(f_) if p.resolve_call(f_, c) is ws or (isinstance(p.resolve_call(f_, c), type(ws)) and ws in p.mro(p.resolve_call(f_, c)))]
+        if not wraps:
+            continue
+        sp = _send_params(f_)
+        recv = {x.arg for x in f_.node.args.args if x.annotation is not None and ast.unparse(x.annotation).split(".")[-1] == "Receive"}
+        rawc = [c for c in calls_in(f_, deep=True) if isinstance(c.func, ast.Name) and c.func.id in (sp | recv)]
+        # only inside the branch that built the wrapper (the http branch of websocket_session answers 404 on the raw channel)
+        from ..common import guards_of as _gof
+        wg = [(ast.unparse(g), pol) for g, pol in _gof(wraps[0], f_.node)]
+        bad = [c for c in rawc if [(ast.unparse(g), pol) for g, pol in _gof(c, f_.node)][:len(wg)] == wg]
+        if bad:
+            rep.violation("R11.3", construct(f_, text=f"raw {bad[0].func.id}() next to the WebSocket wrapper"), where(f_, bad[0]),
+                          f"{f_.fq} builds the WebSocket wrapper and also calls the raw {bad[0].func.id}() of the same connection: events sent this way are not checked against the connection state "
+                          "(a close after the view already closed, data after close) and are not reflected in it")
+        else:
+            rep.ok("R11.3", f"{f_.fq}: after wrapping the channels nothing is sent or received on the raw callables")
+    rep.require_instances("R11.3", 4)
 
     # ---------------------------------------------------------------- R11.1 extraction
     OPS: List[Tuple[str, str, Optional[str]]] = [("accept", "accept", None), ("receive", "receive", None), ("receive_text", "receive_text", None),
@@ -385,4 +405,30 @@ def run(p: Program, rep: Report, tier: str) -> None:
                     rep.ok("R11.4", "ws_send forwards only message types found in the mapping")
                 else:
                     rep.violation("R11.4", construct(ws_send, text="unguarded forward"), where(ws_send), "ws_send forwards a message whose type is not in the denial mapping")
-    rep.require_instances("R11.4", 3)
+        # ws_send rewrites the message it is given IN PLACE; that is only sound if every message the HTTP response code hands
+        # to send() is a dict built for that one call (a shared module-level message would be rewritten for all later uses)
+        mparam = ws_send.params[0] if ws_send.params else "msg"
+        in_place = [n for n in ast.walk(ws_send.node) if isinstance(n, (ast.Assign, ast.AugAssign)) and any(isinstance(t, ast.Subscript) and isinstance(t.value, ast.Name) and t.value.id == mparam
+                    for t in (n.targets if isinstance(n, ast.Assign) else [n.target]))]
+        if in_place:
+            from .stream_common import _send_params
+            n_fresh = 0
+            for f_ in [f for f in p.all_functions() if f.module.name in ("baize.asgi.helper", "baize.asgi.responses")]:
+                sp = _send_params(f_)
+                for c in calls_in(f_):
+                    if not (isinstance(c.func, ast.Name) and c.func.id in sp and c.args):
+                        continue
+                    a0 = c.args[0]
+                    fresh = isinstance(a0, (ast.Dict, ast.DictComp)) or (isinstance(a0, ast.Call) and isinstance(a0.func, ast.Name) and a0.func.id == "dict")
+                    if isinstance(a0, ast.Name):
+                        defs = [n for n in ast.walk(f_.node) if isinstance(n, (ast.Assign, ast.AnnAssign)) and any(isinstance(t, ast.Name) and t.id == a0.id for t in (n.targets if isinstance(n, ast.Assign) else [n.target]))]
+                        fresh = bool(defs) and all(isinstance(d.value, (ast.Dict, ast.DictComp)) or (isinstance(d.value, ast.Call) and isinstance(d.value.func, ast.Name) and d.value.func.id == "dict") for d in defs)
+                    if fresh:
+                        n_fresh += 1
+                    else:
+                        rep.violation("R11.4", construct(f_, text=f"send({ast.unparse(a0)[:40]}) is not a per-call dict"), where(f_, c),
+                                      f"{f_.fq} hands send() a message that is not built for this one call ({ast.unparse(a0)[:40]}), while the denial response's ws_send rewrites message['type'] in place: "
+                                      "the shared message is a websocket.http.response.* event for every later HTTP response of the process")
+            if n_fresh:
+                rep.ok("R11.4", f"ws_send rewrites its argument in place; all {n_fresh} messages of the HTTP response helpers are dicts built per call")
+    rep.require_instances("R11.4", 4)
